@@ -113,6 +113,65 @@ def rendered_isolation(rep, sample, d) -> None:
     rep.extra["imported_packages"] = len(pkgs)
 
 
+def sibling_operations(rep, d) -> None:
+    """A failing operation next to valid ones - on the same path item (every method order) and on other paths: the valid operations and
+    the classes they declare inline are generated exactly as in the document without the failing operation."""
+    from .. import treegen
+    S = {"type": "string"}
+    ok200 = {"200": {"description": "d", "content": {"application/json": {"schema": {"type": "object", "properties": {"r": S, "k": {"type": "string", "enum": ["a", "b"]}}}}}}}
+
+    def valid(opid):
+        return {"operationId": opid, "parameters": [{"name": "mode", "in": "query", "schema": {"type": "string", "enum": ["x", "y"]}}],
+                "requestBody": {"content": {"application/json": {"schema": {"type": "object", "properties": {"b": S}}}}}, "responses": ok200}
+    failing = {
+        "dupparam": {"operationId": "bad", "parameters": [{"name": "p", "in": "query", "schema": S}, {"name": "p", "in": "query", "schema": S}], "responses": ok200},
+        "optionalpath": {"operationId": "bad", "parameters": [{"name": "id", "in": "path", "required": False, "schema": S}], "responses": ok200},
+        "badparamschema": {"operationId": "bad", "parameters": [{"name": "p", "in": "query", "schema": {"type": "array"}}], "responses": ok200},
+        "nobody": {"operationId": "bad", "requestBody": {"content": {"application/json": {"schema": {"type": "array"}}}}, "responses": ok200},
+        "danglingparam": {"operationId": "bad", "parameters": [{"$ref": "#/components/parameters/Nope"}], "responses": ok200},
+    }
+    jobs, meta = [], []
+    for why, bad in failing.items():
+        for layout in ("valid-then-bad", "bad-then-valid", "valid-bad-valid", "other-path"):
+            if layout == "valid-then-bad":
+                item = {"get": valid("first"), "post": bad}
+            elif layout == "bad-then-valid":
+                item = {"get": bad, "post": valid("first")}
+            elif layout == "valid-bad-valid":
+                item = {"get": valid("first"), "put": bad, "delete": valid("second")}
+            else:
+                item = {"get": valid("first")}
+            path = "/things/{id}" if why == "optionalpath" else "/things"
+            paths = {path: item}
+            if why == "optionalpath":
+                for o in item.values():
+                    if o is not bad:
+                        o.setdefault("parameters", []).append({"name": "id", "in": "path", "required": True, "schema": S})
+            if layout == "other-path":
+                paths["/other" + ("/{id}" if why == "optionalpath" else "")] = {"post": bad}
+            good_paths = {pth: {m: o for m, o in it.items() if o is not bad} for pth, it in paths.items()}
+            good_paths = {pth: it for pth, it in good_paths.items() if it}
+            a, b = d / f"sib{len(jobs):03d}", d / f"sib{len(jobs) + 1:03d}"
+            jobs += [(gen.mkdoc(paths=paths), str(a), {}), (gen.mkdoc(paths=good_paths), str(b), {})]
+            meta.append((why, layout, a, b))
+    res = treegen.generate_many(jobs)
+    for i, (why, layout, a, b) in enumerate(meta):
+        g1, g2 = res[2 * i], res[2 * i + 1]
+        rep.count(1, ("sibling-ops", why, layout))
+        key = f"{why}/{layout}"
+        if g1["exc"] or g1["rejected"]:
+            rep.violate(f"C08/sibling-operations/{key}/everything-lost", f"a failing operation ({why}) makes the whole document fail: {(g1['exc'] or str(g1['diags'][:1]))[-200:]}")
+            continue
+        s1, s2 = gen.snapshot(a), gen.snapshot(b)
+        lost = sorted(k for k in s2 if k not in s1)
+        changed = sorted(k for k in s2 if k in s1 and s1[k] != s2[k] and k.endswith(".py") and not k.endswith("__init__.py"))
+        if lost or changed:
+            rep.violate(f"C08/sibling-operations/{key}/valid-operations-damaged", f"with the failing operation ({why}, {layout}) present, the valid operations lose {lost[:4]} / differ in {changed[:4]}",
+                        lost=lost, changed=changed)
+        if not any("bad" in (x["header"] + x["detail"]).lower() or "POST" in x["header"] or "GET" in x["header"] or "PUT" in x["header"] for x in g1["diags"]):
+            rep.violate(f"C08/sibling-operations/{key}/failing-operation-undiagnosed", f"the failing operation ({why}) is not named in any diagnostic: {g1['diags'][:2]}")
+
+
 def run(rep) -> None:
     quick = rep.tier == "quick"
     rnd = random.Random(seed() * 1009 + 8)
@@ -131,6 +190,21 @@ def run(rep) -> None:
         budget = 160 if quick else 2500
         sample = [rnd.choice(strata[k]) for k in keys[:budget]]
         rendered_isolation(rep, sample, d)
+        # the same abstract documents with "a reference through an array" written differently (tuple arrays, nested arrays, typed additional
+        # properties): the model's predictions and the containment oracle are the same
+        witharr = [c for c in cases if any(s["k"] in ("objarr", "arr") for s in c["doc"])]
+        for variant in ("tuple", "nested", "addl"):
+            pipe.VARIANT = variant
+            try:
+                sub = rnd.sample(witharr, min(len(witharr), 1500 if quick else 20000))
+                n0 = len(rep.violations)
+                parser_isolation(rep, sub)
+                for v in rep.violations[n0:]:
+                    v.key = v.key.replace("C08/", f"C08/{variant}-arrays/", 1)
+            finally:
+                pipe.VARIANT = None
+        rep.extra["array_variants"] = ["tuple", "nested", "addl"]
+        sibling_operations(rep, d)
         docs = [(pipe.concretize(c["doc"]), c["doc"]) for c in rnd.sample(cases, 800 if quick else 6000)]
         docs += [(pipe.concretize(a), a) for a in pipe.random_adocs(rnd, 700 if quick else 6000)]
         pipe.trace_batch(rep, docs, d, "C08", _law_key)
